@@ -101,11 +101,13 @@ pub fn stream(rng: &mut Rng, len: usize, class: &str) -> Vec<f64> {
 				v.push(s * (1.0 + 0.3 * rng.gauss()));
 			}
 		}
-		"monotone" => {
+		// `ramp` (not in the class lists; used for the long-window indicator cases): one direction from the first to the
+		// last value, so that streak counters run as long as the stream
+		"monotone" | "ramp" => {
 			let mut x = rng.gauss() * 10.0;
 			let dir = if rng.chance(1, 2) { 1.0 } else { -1.0 };
 			for i in 0..len {
-				if i == len / 2 && rng.chance(1, 2) {
+				if class == "monotone" && i == len / 2 && rng.chance(1, 2) {
 					x -= dir * 40.0 * rng.unit();
 				}
 				x += dir * rng.unit();
@@ -195,11 +197,14 @@ pub fn positive(rng: &mut Rng, len: usize, class: &str) -> Vec<f64> {
 	s.into_iter().map(|x| x + shift).collect()
 }
 
-pub const CANDLE_CLASSES: &[&str] = &["walk", "flat_regime", "plateaus", "alphabet", "noise_pos", "spikes", "monotone", "ticks", "episodes"];
+pub const CANDLE_CLASSES: &[&str] = &["walk", "flat_regime", "plateaus", "alphabet", "noise_pos", "spikes", "monotone", "ticks", "episodes", "micro"];
 
 /// a stream of valid candles (low <= open,close <= high, positive prices, volume >= 0)
 pub fn candles(rng: &mut Rng, len: usize, class: &str) -> Vec<Candle> {
-	let cls = if class == "noise_pos" { "noise" } else if class == "ticks" { "walk" } else { class };
+	// `micro`: an ordinary walk quoted in a unit of 1e-16 (every price, range and change is far below machine epsilon in
+	// absolute terms: an absolute threshold such as `< EPSILON` in place of an exact comparison shows here)
+	let micro = class == "micro";
+	let cls = if class == "noise_pos" { "noise" } else if class == "ticks" || micro { "walk" } else { class };
 	let mut closes = positive(rng, len + 1, cls);
 	let ticks = class == "ticks";
 	if ticks {
@@ -245,7 +250,10 @@ pub fn candles(rng: &mut Rng, len: usize, class: &str) -> Vec<Candle> {
 			_ => 1e6 * rng.unit() * rng.unit(),
 		};
 		type V = yata::core::ValueType;
-		out.push(Candle { open: open as V, high: high as V, low: low as V, close: close as V, volume: volume as V });
+		let k = if micro { 1.0e-16 } else { 1.0 };
+		let (open, high, low, close) = ((open * k) as V, (high * k) as V, (low * k) as V, (close * k) as V);
+		// (the scaling is monotone, but rounding to V may merge neighbours: keep the candle valid)
+		out.push(Candle { open, high: high.max(open).max(close), low: low.min(open).min(close), close, volume: volume as V });
 	}
 	out
 }
